@@ -5,7 +5,7 @@
    cache write). SHA-256 is an ARBITRARY function H: every theorem is for all H, all contents,
    all clock values, all histories. *)
 From Coq Require Import NArith List.
-From SG Require Import Config.Toml Config.Remote Config.Proofs_C18.
+From SG Require Import Config.Toml Config.Remote Config.RemoteUrls Config.Proofs_C18 Config.Proofs_C18u.
 Import ListNotations.
 Open Scope N_scope.
 
@@ -157,3 +157,54 @@ Example C18_crash_reaches_write :
   = Some (Some {| c_body := [97]; c_mtime := 7; c_kind := EText |}).
 Proof. vm_compute. reflexivity. Qed.
 Print Assumptions C18_crash_reaches_write.
+
+(* ---- several URLs sharing one cache directory (Config/RemoteUrls.v: the directory is keyed on the
+   WHOLE url text -- query string, fragment and letter case included).
+   A fetch of one URL leaves the entry of every other URL alone ... *)
+Theorem C18_other_urls_untouched : forall (H : str -> str) p now d u v ex srv o d' n,
+  u <> v -> fetch_url H p now d u ex srv = (o, d', n) -> dir_get v d' = dir_get v d.
+Proof. exact other_urls_untouched. Qed.
+Print Assumptions C18_other_urls_untouched.
+
+(* ... and its answer, its request count and the new entry of its URL depend on the entry of that URL
+   only: what other URLs have cached has no influence *)
+Theorem C18_url_answer_depends_on_own_entry_only : forall (H : str -> str) p now d1 d2 u ex srv,
+  dir_get u d1 = dir_get u d2 ->
+  fst (fst (fetch_url H p now d1 u ex srv)) = fst (fst (fetch_url H p now d2 u ex srv)) /\
+  snd (fetch_url H p now d1 u ex srv) = snd (fetch_url H p now d2 u ex srv) /\
+  dir_get u (snd (fst (fetch_url H p now d1 u ex srv))) = dir_get u (snd (fst (fetch_url H p now d2 u ex srv))).
+Proof. exact own_entry_only. Qed.
+Print Assumptions C18_url_answer_depends_on_own_entry_only.
+
+(* offline on a URL that was never fetched (no entry of its own) is a cache miss without a request,
+   whatever sits in the directory for other URLs *)
+Theorem C18_offline_unfetched_url_misses : forall (H : str -> str) now d u ex srv,
+  dir_get u d = None ->
+  exists d', fetch_url H Offline now d u ex srv = (OMiss, d', 0) /\ forall v, dir_get v d' = dir_get v d.
+Proof. exact offline_unfetched_url_misses. Qed.
+Print Assumptions C18_offline_unfetched_url_misses.
+
+(* inside a history over several URLs, the answers to the steps that configure URL u and the final
+   entry of u are those of the single-URL history made of these steps alone: every theorem above
+   about [run] / [fetch] holds per URL *)
+Theorem C18_url_histories_independent : forall (H : str -> str) u steps d,
+  answers_of u steps (fst (run_urls H steps d)) = fst (run H (steps_of u steps) (dir_get u d)) /\
+  dir_get u (snd (run_urls H steps d)) = snd (run H (steps_of u steps) (dir_get u d)).
+Proof. exact run_urls_projects. Qed.
+Print Assumptions C18_url_histories_independent.
+
+(* non-vacuity: base.toml?ref=v1 (63 = ?) is fetched and cached; base.toml?ref=v2, never fetched, misses
+   offline, is then fetched with its own body; v1 is still served offline from its own entry *)
+Example C18_urls_nonvacuous :
+  let H := fun b : str => b in
+  let v1 := [98; 63; 49] in let v2 := [98; 63; 50] in
+  let st p t s := {| st_policy := p; st_now := t; st_expected := None; st_server := s |} in
+  run_urls H [ {| us_url := v1; us_step := st Normal 100 (SBody [97]) |};
+               {| us_url := v2; us_step := st Offline 101 (SBody [122]) |};
+               {| us_url := v2; us_step := st Normal 102 (SBody [122]) |};
+               {| us_url := v1; us_step := st Offline 103 (SFail 1) |} ] []
+  = ([(OContent [97], 1); (OMiss, 0); (OContent [122], 1); (OContent [97], 0)],
+     [(v1, {| c_body := [97]; c_mtime := 100; c_kind := EText |});
+      (v2, {| c_body := [122]; c_mtime := 102; c_kind := EText |})]).
+Proof. vm_compute. reflexivity. Qed.
+Print Assumptions C18_urls_nonvacuous.
